@@ -162,6 +162,18 @@ def model_case(lay, fmts):
             {"f": o.get("f"), "o": o.get("o"), "P": bool(o.get("P")), "inputs": o["inputs"]}]
 
 
+def fill_tables(ctx, mcases):
+    """oracle tables (yaml reference strings, $decode texts, lower-case runes) for 'cli' cases"""
+    def docs_of(c):
+        out = []
+        for e in c[2]:
+            if e[1][0] == "reg" and e[1][1][0] == "ok":
+                out.extend(e[1][1][1])
+        return out
+    hist.collect_tables(ctx, mcases, lambda c: {}, docs_of)
+    return mcases
+
+
 def parse_out(fmt, out):
     r = hist.py_decode(fmt, out.decode("utf-8", "replace"))
     if r is None or r[0] != "ok":
@@ -231,7 +243,7 @@ def run(ctx):
         res2 = run_bkl(ctx, d2, lv["opts"])
         return res, res2
     results = core.pmap(one, range(n))
-    mo = ctx.model([model_case(l, fmts) for l in lays])
+    mo = ctx.model(fill_tables(ctx, [model_case(l, fmts) for l in lays]))
     seen, nt = set(), 0
     dist = {}
     for lay, (res, res2), m in zip(lays, results, mo):
@@ -260,7 +272,7 @@ def replay(ctx, payload):
     d = os.path.join(ctx.work, "replay")
     write_layout(d, lay, core.Rng(1))
     res = run_bkl(ctx, d, lay["opts"])
-    mo = ctx.model([model_case(lay, fmts)])
+    mo = ctx.model(fill_tables(ctx, [model_case(lay, fmts)]))
     why = judge(lay, res, mo[0])
     print("implementation:", res)
     print("model:", mo[0])
